@@ -354,10 +354,18 @@ def implicit_reg_rule(chk):
     g = fns[0]
     par = g.parent_map()
     guarded = set()
-    for i, x in g.ex.items():
-        if x["k"] in ("call", "mcall") and x.get("cn") == "test" and len(x.get("args", [])) == 2:
-            a0, a1 = g.text(x["args"][0]), g.text(x["args"][1])
-            if "reg_mask" in a0 and "reg_mask" in a1 and "op" in a0 + a1 and "ref" in a0 + a1:
+    cond_roots = [x.get("cond") for x in g.ex.values() if x["k"] == "s:IfStmt" and x.get("cond") is not None]
+    for i in cond_roots:
+        # any condition that reads the reg_mask() of both the operand and the signature entry
+        owners = set()
+        for j in g.walk(i):
+            y = g.e(j)
+            if y is not None and y["k"] == "mcall" and y.get("cn") == "reg_mask" and y.get("obj"):
+                r = g.root_ref(y["obj"])
+                if r is not None:
+                    owners.add((g.e(r) or {}).get("name"))
+        if True:
+            if len(owners) >= 2:
                 # enclosing conditions
                 j = i
                 conds = []
